@@ -222,6 +222,11 @@ Proof.
 Qed.
 Theorem plug_effect_length : forall n k, (k <= n)%nat -> length (plug_effect n k) = n.
 Proof. intros n k H. unfold plug_effect. rewrite app_length, !repeat_length. lia. Qed.
+Theorem plug_correct : forall (T : tensor) n k ms, (k <= n)%nat -> length ms = k ->
+  length (plug_effect n k) = n /\ plug_power n k ms = 0%Z /\ plug_coeff T n k ms == marg T n ms.
+Proof.
+  intros T n k ms Hk Hl. split; [exact (plug_effect_length n k Hk) | split; [exact (plug_power_zero n k ms Hk Hl) | exact (plug_coeff_marg T n k ms Hk Hl)]].
+Qed.
 Theorem power2_base_common : forall pw g g', power2_base_of pw g = power2_base_of pw g'.
 Proof. intros. reflexivity. Qed.
 
